@@ -143,17 +143,19 @@ def _gene_case(repo, it, S, spec):
             from .c01 import enum_positions
             inside = [p for p in enum_positions(t["exons"], t["strand"]) if parent_kind != "chunk" or 2 <= p < 45]
             wseq = bases(inside, t["strand"])
-            if k != "ok" or v.fields["sequence"] != wseq:
-                out.append(("get_primary_transcript_sequence", f"{desc}: primary transcript sequence -> {k}:{v.fields['sequence'] if k == 'ok' else v}; the primary member's sequence is {wseq!r}", f"{q}.get_primary_transcript_sequence"))
+            gotseq = v.fields.get("sequence") if k == "ok" and isinstance(v, Obj) else v
+            if k != "ok" or gotseq != wseq:
+                out.append(("get_primary_transcript_sequence", f"{desc}: primary transcript sequence -> {k}:{gotseq}; the primary member's sequence is {wseq!r}", f"{q}.get_primary_transcript_sequence"))
             if t["cds"]:
                 n += 2
                 k1, v1 = run(it, repo.fn(f"{q}.get_primary_cds_sequence"), [], {}, g)
                 k2, v2 = run(it, repo.fn("gene.cds:CDSInterval.extract_sequence"), [], {}, txs[want].fields["cds"])
-                if k1 != k2 or (k1 == "ok" and v1.fields["sequence"] != v2.fields["sequence"]):
+                sq = lambda x: x.fields.get("sequence") if isinstance(x, Obj) else x  # noqa: E731
+                if k1 != k2 or (k1 == "ok" and sq(v1) != sq(v2)):
                     out.append(("get_primary_cds_sequence", f"{desc}: primary CDS sequence differs from the primary member's CDS sequence", f"{q}.get_primary_cds_sequence"))
                 k1, v1 = run(it, repo.fn(f"{q}.get_primary_protein"), [], {}, g)
                 k2, v2 = run(it, repo.fn("gene.cds:CDSInterval.translate"), [], {}, txs[want].fields["cds"])
-                if k1 != k2 or (k1 == "ok" and v1.fields["sequence"] != v2.fields["sequence"]):
+                if k1 != k2 or (k1 == "ok" and sq(v1) != sq(v2)):
                     out.append(("get_primary_protein", f"{desc}: primary protein differs from the primary member's translation", f"{q}.get_primary_protein"))
     # a second gene around the same transcript objects (other order): the inferred primary is a function of that gene's own
     # children, not of genes built earlier from them
@@ -293,6 +295,21 @@ def _fc_case(repo, it, S, spec):
     k, v = run(it, repo.fn(f"{q}.is_coding"), [], {}, fc)
     if k != "ok" or v is not False:
         out.append(("is_coding", f"{desc}: feature collection is_coding -> {k}:{v}", f"{q}.is_coding"))
+    # the primary accessors return the primary member and its values
+    if got == [want]:
+        n += 1
+        k, v = run(it, repo.fn(f"{q}.get_primary_feature"), [], {}, fc)
+        if k != "ok" or v is not feats[want]:
+            out.append(("get_primary_feature", f"{desc}: get_primary_feature() does not return the primary member's own object ({k})", f"{q}.get_primary_feature"))
+        if parent is not None and repo.has_fn(f"{q}.get_primary_feature_sequence"):
+            n += 1
+            k1, v1 = run(it, repo.fn(f"{q}.get_primary_feature_sequence"), [], {}, fc)
+            k2, v2 = run(it, repo.fn("gene.interval:AbstractFeatureInterval.get_spliced_sequence"), [], {}, feats[want])
+            s1 = v1.fields.get("sequence") if k1 == "ok" and isinstance(v1, Obj) else v1
+            s2 = v2.fields.get("sequence") if k2 == "ok" and isinstance(v2, Obj) else v2
+            if (k1, s1) != (k2, s2):
+                out.append(("get_primary_feature_sequence", f"{desc}: get_primary_feature_sequence() -> {k1}:{s1}; the primary member's spliced sequence is {k2}:{s2}",
+                            f"{q}.get_primary_feature_sequence"))
     return n, out
 
 
